@@ -788,75 +788,84 @@ Definition known (AF : list (fkind * fdef)) (k : fkind) (fd : fdef) : bool :=
 Lemma known_nth : forall AF k fd, known AF k fd = true -> exists i, nth_error AF i = Some (k, fd).
 Proof. intros AF k fd H. unfold known in H. destruct (in_dec kf_eq_dec (k, fd) AF) as [Hin|]; [|discriminate]. apply In_nth_error. exact Hin. Qed.
 
-Definition run_ok (FS : fsigs) (TL : list ident) (AF : list (fkind * fdef)) (sc : list ident) (fds : list fdef) : bool :=
+Definition run_ok (FS : fsigs) (TL : list ident) (AF : list (fkind * fdef)) (self : option ident) (sc : list ident) (fds : list fdef) : bool :=
   let names := map fd_name fds in
   nodup_ids names &&
-  forallb (fun x => negb (is_fname FS x) && negb (mem_id x sc)) names &&
+  forallb (fun x => negb (is_fname FS x) && negb (mem_id x sc) && negb (self_is self x)) names &&
   forallb (fun fd => known AF KNamed fd && forallb (fun y => mem_id y (names ++ sc)) (fvs_fd TL fd)) fds.
 
-Definition items_F_f (FS : fsigs) (TL : list ident) (AF : list (fkind * fdef)) (lv : nat) (fexpr : list ident -> expr -> bool) :=
+Definition items_F_f (FS : fsigs) (TL : list ident) (AF : list (fkind * fdef)) (self : option ident) (lv : nat) (fexpr : list ident -> expr -> bool) :=
   fix go (sc : list ident) (pend : nat) (l : list item) {struct l} : bool :=
   match l with
   | [] => false                                  (* a block ends with an expression item *)
   | IExpr e :: t => fexpr sc e && match t with [] => true | _ => go sc 0%nat t end
-  | ILet x e :: t | IVar x e :: t => negb (is_fname FS x) && fexpr sc e && go (x :: sc) 0%nat t
+  | ILet x e :: t | IVar x e :: t => negb (is_fname FS x) && negb (self_is self x) && fexpr sc e && go (x :: sc) 0%nat t
   | IFunc fd :: t =>
       match pend with
       | O => let fds := fd :: run_funcs t in
-             Nat.leb 4 lv && run_ok FS TL AF sc fds && go (map fd_name fds ++ sc) (length (run_funcs t)) t
+             Nat.leb 4 lv && run_ok FS TL AF self sc fds && go (map fd_name fds ++ sc) (length (run_funcs t)) t
       | S p => go sc p t
       end
   end.
 
-Fixpoint in_F (FS : fsigs) (TL : list ident) (AF : list (fkind * fdef)) (lv : nat) (sc : list ident) (e : expr) {struct e} : bool :=
+Fixpoint in_F (FS : fsigs) (TL : list ident) (AF : list (fkind * fdef)) (self : option ident) (lv : nat) (sc : list ident) (e : expr) {struct e} : bool :=
   match e with
   | EInt z => int_lit_ok z
   | EBool _ => true
   | EVar x => mem_id x sc
-  | ENeg a => negb (is_lit a) && in_F FS TL AF lv sc a
-  | ENot a => negb (is_lit a) && in_F FS TL AF lv sc a
+  | ENeg a => negb (is_lit a) && in_F FS TL AF self lv sc a
+  | ENot a => negb (is_lit a) && in_F FS TL AF self lv sc a
   | EBin op a b =>
       (f1_binop op || Nat.leb 2 lv) && negb (is_lit a && is_lit b) && shift_ok op b &&
-      in_F FS TL AF lv sc a && in_F FS TL AF lv sc b
-  | ECond c a b => negb (is_lit c) && in_F FS TL AF lv sc c && in_F FS TL AF lv sc a && in_F FS TL AF lv sc b
-  | EAssign (EVar x) r => mem_id x sc && int_shaped r && in_F FS TL AF lv sc r
-  | EBlock items => items_F_f FS TL AF lv (in_F FS TL AF lv) sc 0%nat items
-  | EWhile c b => Nat.leb 2 lv && in_F FS TL AF lv sc c && in_F FS TL AF lv sc b
-  | EDoWhile b c => Nat.leb 2 lv && in_F FS TL AF lv sc b && in_F FS TL AF lv sc c
+      in_F FS TL AF self lv sc a && in_F FS TL AF self lv sc b
+  | ECond c a b => negb (is_lit c) && in_F FS TL AF self lv sc c && in_F FS TL AF self lv sc a && in_F FS TL AF self lv sc b
+  | EAssign (EVar x) r => mem_id x sc && int_shaped r && in_F FS TL AF self lv sc r
+  | EBlock items => items_F_f FS TL AF self lv (in_F FS TL AF self lv) sc 0%nat items
+  | EWhile c b => Nat.leb 2 lv && in_F FS TL AF self lv sc c && in_F FS TL AF self lv sc b
+  | EDoWhile b c => Nat.leb 2 lv && in_F FS TL AF self lv sc b && in_F FS TL AF self lv sc c
   | EFor i c s b =>
-      Nat.leb 2 lv && in_F FS TL AF lv sc i && in_F FS TL AF lv sc c && in_F FS TL AF lv sc s && in_F FS TL AF lv sc b
-  | EPrint a => Nat.leb 2 lv && in_F FS TL AF lv sc a
+      Nat.leb 2 lv && in_F FS TL AF self lv sc i && in_F FS TL AF self lv sc c && in_F FS TL AF self lv sc s && in_F FS TL AF self lv sc b
+  | EPrint a => Nat.leb 2 lv && in_F FS TL AF self lv sc a
   | ECall f args =>
       Nat.leb 3 lv &&
       (fix all (l : list expr) : bool :=
-         match l with [] => true | a :: t => in_F FS TL AF lv sc a && all t end) args &&
+         match l with [] => true | a :: t => in_F FS TL AF self lv sc a && all t end) args &&
       match f with
       | EVar g => match fsig_lookup g FS with
                   | Some n => Nat.eqb n (length args)      (* a top-level function, by name *)
-                  | None => Nat.leb 4 lv && mem_id g sc    (* a function value in a slot / captured *)
+                  | None => Nat.leb 4 lv && (mem_id g sc || self_is self g)
+                                               (* a function value in a slot / captured; the running nested function *)
                   end
-      | _ => Nat.leb 4 lv && in_F FS TL AF lv sc f            (* any expression that yields a function value *)
+      | _ => Nat.leb 4 lv && in_F FS TL AF self lv sc f            (* any expression that yields a function value *)
       end
   | ELambda fd => Nat.leb 4 lv && known AF KLam fd && forallb (fun y => mem_id y sc) (fvs_fd TL fd)
   | _ => false
   end.
 
-Definition items_F (FS : fsigs) (TL : list ident) (AF : list (fkind * fdef)) (lv : nat) (sc : list ident) (l : list item) : bool :=
-  items_F_f FS TL AF lv (in_F FS TL AF lv) sc 0%nat l.
+Definition items_F (FS : fsigs) (TL : list ident) (AF : list (fkind * fdef)) (self : option ident) (lv : nat) (sc : list ident) (l : list item) : bool :=
+  items_F_f FS TL AF self lv (in_F FS TL AF self lv) sc 0%nat l.
 
-Fixpoint args_F (FS : fsigs) (TL : list ident) (AF : list (fkind * fdef)) (lv : nat) (sc : list ident) (l : list expr) : bool :=
-  match l with [] => true | a :: t => in_F FS TL AF lv sc a && args_F FS TL AF lv sc t end.
+Fixpoint args_F (FS : fsigs) (TL : list ident) (AF : list (fkind * fdef)) (self : option ident) (lv : nat) (sc : list ident) (l : list expr) : bool :=
+  match l with [] => true | a :: t => in_F FS TL AF self lv sc a && args_F FS TL AF self lv sc t end.
 
 (* a function of the proof's fragment, by kind: the body is checked under the parameters and — for a nested
-   function — its free variables (the names its environment vector holds); no catch clauses, no self call
-   in tail position (the present state of the proof; the tie's fragment prog_in_F4 has both) *)
+   function — its free variables (the names its environment vector holds) — also its catch clauses; a function WITH catch clauses
+   has no self call in tail position (as in F5: Src/Eval.v has no tail-call elimination) *)
 Definition body_scope (TL : list ident) (k : fkind) (fd : fdef) : list ident :=
   param_names (fd_params fd) ++ match k with KTop => [] | _ => fvs_fd TL fd end.
 
 Definition func_in_P (FS : fsigs) (TL : list ident) (AF : list (fkind * fdef)) (lv : nat) (kf : fkind * fdef) : bool :=
-  items_F FS TL AF lv (body_scope TL (fst kf) (snd kf)) (fd_body (snd kf)) &&
+  items_F FS TL AF (fc_self (ctx_of TL (fst kf) (snd kf))) lv (body_scope TL (fst kf) (snd kf)) (fd_body (snd kf)) &&
+  negb (mem_id (fd_name (snd kf)) (param_names (fd_params (snd kf)))) &&
   forallb (fun x => negb (is_fname FS x)) (param_names (fd_params (snd kf))) &&
-  no_catch (snd kf) && no_self_tail_fd (snd kf).
+  (no_catch (snd kf) ||
+   (forallb (fun c => items_F FS TL AF (fc_self (ctx_of TL (fst kf) (snd kf))) lv (body_scope TL (fst kf) (snd kf)) (snd c))
+            (fd_catches (snd kf)) &&
+    match fd_catch_all (snd kf) with
+    | Some b => items_F FS TL AF (fc_self (ctx_of TL (fst kf) (snd kf))) lv (body_scope TL (fst kf) (snd kf)) b
+    | None => true
+    end &&
+    no_self_tail_fd (snd kf))).
 
 (* a program of the proof's fragment (a subset of the tie's prog_in_F4): every function of the image is in the
    fragment, all function names are pairwise different, a nested function is not named like a top-level one and
@@ -872,7 +881,11 @@ Definition prog_in_P (lv : nat) (p : program) : bool :=
                             forallb (fun x => negb (is_fname (prog_sigs p) x)) (fvs_fd (tnames p) (snd kf))
                      end) (all_funcs p) &&
   nodup_ids (fnames p) &&
-  mem_id (p_main p) (tnames p).
+  mem_id (p_main p) (tnames p) &&
+  forallb (fun kf => match fst kf with
+                     | KTop => if in_dec fdef_eq_dec (snd kf) (p_funcs p) then true else false
+                     | _ => true
+                     end) (all_funcs p).
 
 (* ---- unfolding equations ---------------------------------------------------------------- *)
 
@@ -901,6 +914,27 @@ Proof.
   intros. unfold compile_expr. cbn [cexpr compile_items_f nbinds block_end]. unfold block_end.
   simpl (0 <? 0). rewrite !app_nil_r. reflexivity.
 Qed.
+
+(* the items of a block whose last expression is in tail position of the function `self` *)
+Definition compile_items_tl (FT TL : list ident) (fc : fctx) (self : option ident) (L : Z) (ce : cenv)
+  (l : list item) : list rinstr :=
+  compile_items_f (compile_expr FT TL fc) (cexpr FT TL fc self true) (closure_code FT TL fc) L ce 0%nat l.
+
+Lemma compile_items_tl_let : forall FT TL fc self L ce x e t, compile_items_tl FT TL fc self L ce (ILet x e :: t) =
+  compile_expr FT TL fc L ce e ++ compile_items_tl FT TL fc self (L + 1) ((x, L + 1) :: ce) t.
+Proof. reflexivity. Qed.
+Lemma compile_items_tl_var : forall FT TL fc self L ce x e t, compile_items_tl FT TL fc self L ce (IVar x e :: t) =
+  compile_expr FT TL fc L ce e ++ compile_items_tl FT TL fc self (L + 1) ((x, L + 1) :: ce) t.
+Proof. reflexivity. Qed.
+Lemma compile_items_tl_last : forall FT TL fc self L ce e, compile_items_tl FT TL fc self L ce [IExpr e] =
+  cexpr FT TL fc self true L ce e ++ [].
+Proof. reflexivity. Qed.
+Lemma compile_items_tl_expr : forall FT TL fc self L ce e it t, compile_items_tl FT TL fc self L ce (IExpr e :: it :: t) =
+  compile_expr FT TL fc L ce e ++ ins BYTECODE_SLIDE 1 0 :: compile_items_tl FT TL fc self L ce (it :: t).
+Proof. reflexivity. Qed.
+Lemma cexpr_block_tl : forall FT TL fc self L ce items, cexpr FT TL fc self true L ce (EBlock items) =
+  compile_items_tl FT TL fc self L ce items ++ block_end (nbinds items).
+Proof. reflexivity. Qed.
 
 (* without a self call in tail position the tail-position compilation is the plain one *)
 Lemma nst_eq : forall FT TL fc self e L ce, nst self e = true ->
